@@ -16,14 +16,15 @@ from ..core import Violation
 
 ID = "C14"
 LEVEL = "exploration"
-RULE = ("Hypothesis draws nested plain values (None, bool, int incl. >2**64, finite and infinite "
-        "floats, str incl. non-ASCII, bytes, v4 UUIDs, aware/naive datetimes, dates, lists, dicts "
-        "with str/int/None/tuple/bytes keys; depth<=4), a single-step perturbation at a drawn depth "
-        "(kind change, content +-1, one char, length +-1, key added/removed/renamed, element "
-        "dropped/duplicated/swapped) and a variant with a non-plain member (Decimal, Fraction, "
-        "complex, tuple, set, bytearray, non-v4 UUID, time, ..., Nil, function, object...) alone or "
-        "nested. distinct = canonical JSON of the case; non-trivial = nested value with the "
-        "perturbation (or the non-plain member) below the top level")
+RULE = ("Hypothesis draws nested plain values (None, bool, int incl. >2**64, finite incl. tiny, and infinite floats, "
+        "str incl. non-ASCII, bytes, v4 UUIDs, aware/naive datetimes, dates, lists, dicts with str/int/None/tuple/bytes "
+        "keys; depth<=4); then either a single-step perturbation at a drawn depth (kind change, content +-1, purely "
+        "relative float steps, one char, NFC/NFD twin, length +-1, key added/removed/renamed, element dropped / "
+        "duplicated / swapped), or a variant with a non-plain member (Decimal, Fraction, complex, tuple, set, bytearray, "
+        "non-v4 UUID, time, ..., Nil, function, object, Mapping / Sequence types that are not dict / list, compiled "
+        "regex) alone or nested, or the same container object referenced twice inside one value. distinct = canonical "
+        "JSON of the case; non-trivial = the perturbation (or the non-plain member) lies below the top level, or the "
+        "value shares a sub-object")
 ASSUMPTIONS = [
     "True/False vs 1/0 (value or key position) and float differences inside rel. 1e-6 are exempt, as the statement says",
     "instances of subclasses of plain types (int/str/dict subclasses, datetime under date) are not asserted either way",
